@@ -49,6 +49,17 @@ Proof. split; vm_compute; reflexivity. Qed.
 Lemma buffer_matches : Z.of_nat buffer_size = nsqd_defaultBufferSize.
 Proof. vm_compute. reflexivity. Qed.
 
+(* a command line is read by ReadSlice up to '\n' - the one bufio read that fails with
+   ErrBufferFull instead of growing (model: read_slice) - and every reader a client
+   connection gets (plain, TLS, deflate, snappy) has defaultBufferSize bytes *)
+Definition name_ReadSlice : string := "ReadSlice".
+Definition name_defaultBufferSize : string := "defaultBufferSize".
+Lemma line_reader_matches :
+  ioloop_line_reads = [(name_ReadSlice, NL)]
+  /\ reader_sizes <> []
+  /\ forallb (String.eqb name_defaultBufferSize) reader_sizes = true.
+Proof. split; [vm_compute; reflexivity|]. split; [discriminate | vm_compute; reflexivity]. Qed.
+
 (* the order of the tests, allocations, reads and core calls of every handler is the one
    the model was written against *)
 Lemma checks_match : source_order = handler_checks.
